@@ -280,3 +280,25 @@ func VerifC19JSONDocs() {
 	v.Assert(err != nil, "UnmarshalJSON accepts a document that is not a JSON object of integers")
 	v.Assert(len(m.records) == len(m.order), "invariant: records and order have different sizes")
 }
+
+// VerifC19SortStability: Sort must keep keys that the comparison treats as equal in first-insertion order.
+// Go's unstable sort.Slice happens to be stable below 13 elements (insertion sort), so the small maps of the
+// other entries cannot tell it from sort.SliceStable natively: here 14 keys in two groups are sorted by
+// their first byte only.
+func VerifC19SortStability() {
+	m := New[string, int]()
+	ref := &c19Model{}
+	groups := []string{"b", "a"}
+	if v.Bool("swapgroups") {
+		groups = []string{"a", "b"}
+	}
+	for i := 0; i < 14; i++ {
+		k := groups[i%2] + string(rune('0'+i/2))
+		m.Set(k, i)
+		ref.set(k, i)
+	}
+	less := func(x, y string) bool { return x[0] < y[0] }
+	m.Sort(less)
+	c19ModelSort(ref, less)
+	c19Agree(m, ref)
+}
